@@ -152,7 +152,7 @@ func c16Text(res *explore.Result, doc string, verdict c16Verdict, want interface
 	}
 	cs := c16Case{strconv.Quote(doc), c16Placement, append([]string{}, c16Hist...)}
 	c16Hist = append(c16Hist, strconv.Quote(doc))
-	fs, _, r, _ := place(placements[c16Placement], "f", []byte(doc))
+	fs, c16File, r, _ := place(placements[c16Placement], "f", []byte(doc))
 	if c16Placement != 0 {
 		why += "; file " + placements[c16Placement].name
 	}
@@ -166,6 +166,20 @@ func c16Text(res *explore.Result, doc string, verdict c16Verdict, want interface
 	}
 	if verbose {
 		res.Notes = append(res.Notes, fmt.Sprintf("document %s: verdict class %d (%s); library value=%#v err=%v; encoding/json value=%#v", q(doc), verdict, why, val, err, want))
+	}
+	{
+		// the same file evaluated once more through a fresh reader and context: parsing must not have changed what it read
+		var val2 interface{}
+		var err2 error
+		ctx2 := parsley.NewContext(fs, text.NewReader(c16File))
+		if pm := guard(func() { val2, err2 = parsley.Evaluate(ctx2, jsonRoot) }); pm != "" {
+			res.Violate("panic", fmt.Sprintf("document %s: second Evaluate on the same file panicked: %s", q(doc), pm), cs)
+			return
+		}
+		if (err == nil) != (err2 == nil) || (err != nil && err.Error() != err2.Error()) || (err == nil && !jsonEqual(val, val2)) {
+			res.Violate("second-evaluation-of-the-same-file-differs", fmt.Sprintf("document %s: first Evaluate: %#v, %v; second Evaluate on the same file: %#v, %v", q(doc), val, err, val2, err2), cs)
+			return
+		}
 	}
 	if val != nil && err != nil {
 		res.Violate("value-and-error", fmt.Sprintf("document %s: value %v AND error %v", q(doc), val, err), cs)
